@@ -132,7 +132,19 @@ def run(chk):
     for d, frs in dicts:
         for g in frs:
             probes.append((g['frame'], 'dict-frame-without-dict'))
+    # frames whose FIRST compressed block repeats a sequence table: only decodable with a table left over from an
+    # earlier frame (a fresh decoder must refuse them)
+    rep_probes = [(second, 'repeat-first') for first, second, lab in synth.make_broken_table_then_repeat(rng, 30 if thorough else 12)]
+    probes += rep_probes
     cases, lines = [], []
+    seq_frames = [f for f in pool if f.get('cls', '').startswith('synthetic')]
+    for probe, pkind in rep_probes:
+        if not seq_frames:
+            break
+        h = rng.choice(seq_frames)
+        probe_prog = 'src=%s I B?a C Q K' % hexs(probe)
+        cases.append((pkind, ['complete']))
+        lines.append('src=%s I Ba C %s new %s' % (hexs(h['frame']), probe_prog, probe_prog))
     for _ in range(260 if thorough else 90):
         probe, pkind = rng.choice(probes)
         steps, kinds = [], []
